@@ -199,6 +199,7 @@ func Run(c *engine.Ctx) {
 	historyPairs(c)
 	fileHistories(c)
 	filePaths(c)
+	truncations(c)
 	multiByteText(c)
 	declarationCube(c)
 	headers(c)
@@ -784,6 +785,56 @@ func declarationCube(c *engine.Ctx) {
 						return nil
 					})
 				}
+			}
+		}
+	}
+}
+
+// truncations: inputs cut short. Every prefix (every byte position) of tag-value documents with the declaration in
+// several positions and of the writer's output in the four readable formats, as it is and followed by a line end: a
+// stream that ends inside the declaration, inside a token, inside a multi-byte character. Detection returns a format
+// or an error, never panics, and leaves the stream at its start.
+func truncations(c *engine.Ctx) {
+	c.Group("truncated-inputs")
+	ins := []string{
+		"SPDXVersion: SPDX-2.3\nDataLicense: CC0-1.0\nSPDXID: SPDXRef-DOCUMENT\n",
+		"# é✓ comment\nDataLicense: CC0-1.0\nSPDXVersion: SPDX-2.2\n",
+		"DocumentName: x SPDX-2.3\r\nSPDXVersion:   SPDX-2.3  \r\n",
+		"SPDXVersion: SPDX-2.3 SPDXVersion: SPDX-2.2 'SPDX-2.3' \"SPDX-2.3\"",
+	}
+	for _, f := range readable {
+		if out, err := rw.Write(histDoc(), f, 0); err == nil {
+			if len(out) > 700 {
+				out = out[:700]
+			}
+			ins = append(ins, string(out))
+		}
+	}
+	n := 0
+	for _, in := range ins {
+		n += 2 * (len(in) + 1)
+	}
+	c.Bound("truncated-inputs", fmt.Sprintf("%d cases: every prefix (every byte position) of %d inputs (tag-value declarations in several positions and spellings; the first 700 bytes of the writer's output in the 4 readable formats), as it is and followed by a line end", n, len(ins)))
+	for ii := range ins {
+		for cut := 0; cut <= len(ins[ii]); cut++ {
+			for _, tail := range []string{"", "\n"} {
+				ii, cut, tail := ii, cut, tail
+				c.Case(func() any {
+					return map[string]any{"group": "truncated-inputs", "input": clip60(ins[ii]), "cut-at": cut, "line-end-appended": tail != ""}
+				}, func(t *engine.T) *engine.Violation {
+					in := []byte(ins[ii][:cut] + tail)
+					_, err, v := sniffAll(t, in)
+					if v != nil {
+						return v
+					}
+					t.State(fmt.Sprint("trunc", ii, cut, tail != ""))
+					if err != nil {
+						t.Outcome("truncated:error")
+					} else {
+						t.Outcome("truncated:format")
+					}
+					return nil
+				})
 			}
 		}
 	}
